@@ -67,6 +67,21 @@ pub fn generate(ctx: &mut Ctx) {
             }
         }
     }
+    for len in gen::sweep_lengths() {
+        if len > 5000 {
+            continue;
+        }
+        if ctx.mine(bi) {
+            for unit in ["a", "\u{e9}"] {
+                let b = unit.repeat(len);
+                let d = "7".repeat(len);
+                for a in [format!("{}@h:1", b), format!("u@{}:1", b), format!("u@h:{}", d), format!("{}:{}@{}:{}", b, b, b, d), format!("{}@[::1]:{}", b, d), b.clone()] {
+                    ctx.run(Case::new("auth").arg(a.as_bytes()));
+                }
+            }
+        }
+        bi += 1;
+    }
     let n = ctx.by_tier(240_000u64, 3_000_000u64) / ctx.nshards;
     for i in 0..n {
         let mut rng = ctx.rng("auth", i);
